@@ -271,6 +271,7 @@ struct Explorer {
             }
             for (auto &st : layer) delete st.obj;
             layer = std::move(next);
+            if (layer.size() > 500000) { run.sh->capped.store(1); for (size_t i = 500000; i < layer.size(); ++i) delete layer[i].obj; layer.resize(500000); }   // memory bound of one frontier
             auto cur = run.sh->counters[cn.max_depth].load();
             while (cur < uint64_t(depth) && !run.sh->counters[cn.max_depth].compare_exchange_weak(cur, uint64_t(depth))) {}
         }
@@ -521,7 +522,7 @@ int main(int argc, char **argv) {
     // (base, buffer_level, index_level): buffer of 3 entries and levels of 4/8/16 for base 2, so short histories cascade
     std::vector<DynCfg> cfgs_q = {{2, 1, 2}, {2, 1, 3}, {2, 2, 3}, {4, 1, 2}, {2, 1, 0}};
     std::vector<DynCfg> cfgs_t = {{8, 1, 2}, {2, 3, 4}, {16, 1, 2}, {128, 1, 2}, {4, 2, 3}};
-    int Dq = 8, Dt = 11;
+    int Dq = 8, Dt = 10;
 #ifdef VERIF_ASAN
     Dq = 4; Dt = 6;
 #endif
@@ -532,7 +533,7 @@ int main(int argc, char **argv) {
         for (int i = 0; i < ni; ++i) {
             bool deep = i >= ni - 2;
             if (!all_inits && i != 0 && !deep) continue;
-            tasks.push_back(Task{tindex, ks, i, deep ? std::max(3, D - 3) : (i == 0 ? D : D - 2), c, thorough ? size_t(3000000) : size_t(400000)});
+            tasks.push_back(Task{tindex, ks, i, deep ? std::max(3, D - 3) : (i == 0 ? D : D - 2), c, thorough ? size_t(1500000) : size_t(400000)});
         }
     };
     for (size_t t = 0; t < ty.size(); ++t) {
@@ -544,7 +545,7 @@ int main(int argc, char **argv) {
             if (c == 0 || thorough) add_cfg(cfgs_q[c], int(t), thorough ? 7 : 5, false, 3);           // deep starts with 7 keys
             if (c <= 2 || thorough)                                                                   // non-initial starts after 11 / 15 / 19 inserts
                 for (int pre : {11, 15, 19}) for (int ks : {0, 1}) {
-                    Task tk{int(t), ks, 0, (thorough ? Dt : Dq) - 2, cfgs_q[c], thorough ? size_t(3000000) : size_t(400000)}; tk.prefix = pre; tasks.push_back(tk);
+                    Task tk{int(t), ks, 0, (thorough ? Dt : Dq) - 2, cfgs_q[c], thorough ? size_t(1500000) : size_t(400000)}; tk.prefix = pre; tasks.push_back(tk);
                 }
         }
         if (thorough) for (auto &c : cfgs_t) add_cfg(c, int(t), Dt - 1, false, 0);
@@ -561,7 +562,7 @@ int main(int argc, char **argv) {
         if (!asan_build || thorough)
             for (auto &c : std::vector<DynCfg>{{2, 1, 2}, {4, 1, 2}, {2, 2, 3}, {8, 1, 2}, {4, 1, 0}})
                 for (int pl = 0; pl < 3; ++pl) { Task tk{int(t), 0, 0, 98, c, 0}; tk.sweep_n = thorough ? 140 : 70; tk.sweep_f = thorough ? 80 : 40; tk.placement = pl; tasks.push_back(tk); }
-        for (auto &r : rs) { Task tk{int(t), r.ks, 0, 99, r.cfg, thorough ? size_t(4000000) : size_t(600000)}; tk.rounds = r.R; tk.actions = r.actions; tasks.push_back(tk); }
+        for (auto &r : rs) { Task tk{int(t), r.ks, 0, 99, r.cfg, thorough ? size_t(2000000) : size_t(600000)}; tk.rounds = r.R; tk.actions = r.actions; tasks.push_back(tk); }
     }
     // largest tasks first
     std::stable_sort(tasks.begin(), tasks.end(), [](const Task &a, const Task &b) { return a.D > b.D; });
